@@ -31,6 +31,7 @@ DECIDED = [
     "time; __execute_callbacks fires the slot first and then awaits the callbacks in list order",
     "R-C16-TYPESTATE (connection): a Message handle is created on the connection of the queue it was taken from (connection propagation rule)",
     "R-C16-CALLBACKS (writers): the lazy result slot is written only by set_result / set_exception (directly or through their private helper)",
+    "R-C16-CATEGORY (round 5): category comparisons by equality; Message.__init__ defaults exactly a None category to NORMAL; R-C16-CALLBACKS: the callback loop iterates the live list (a callback registered by a running callback runs)",
 ]
 NOT_DECIDED = ["user code catching BaseException inside an actor (outside the analysed program)"]
 ASSUMPTIONS = ["Message actions are only reachable through the methods analysed (no monkey-patching)"]
@@ -46,6 +47,9 @@ ACTIONS = {
 
 
 def run(ctx: Ctx) -> None:
+    from .shared import category_equality
+
+    category_equality(ctx, "R-C16-CATEGORY")
     from .shared import connection_propagation
 
     connection_propagation(ctx, "R-C16-TYPESTATE")  # a handle acts on the broker it was taken from
@@ -181,6 +185,12 @@ def run(ctx: Ctx) -> None:
     others = [s for s in st if s not in keeps]
     # besides the store of the argument only the NORMAL default (for "no category given") may be stored
     ok = bool(keeps) and all(dotted(s.value) == "MessageCategory.NORMAL" for s in others)
+    sv_ = C.stored_value(f, "self._category")
+    t3_ = C.negate_aware_ifexp(sv_) if sv_ is not None else None
+    if t3_ is not None:
+        # `<default> if <test> else _category`: the default is taken exactly when no category was given
+        ok = ok and isinstance(t3_[0], ast.Compare) and isinstance(t3_[0].ops[0], ast.Is) and dotted(t3_[0].left) == "_category" and C.is_const(t3_[0].comparators[0], None) \
+            and dotted(t3_[1]) == "MessageCategory.NORMAL" and dotted(t3_[2]) == "_category"
     ctx.check(ok, "R-C16-CATEGORY", f, "self._category = ... in Message.__init__",
               "category stored from the constructor argument (NORMAL when none was given)",
               f"Message.__init__ does not keep the category it was constructed with (stores {[unparse(s.value) for s in st]})", node=st[0], instance="Message.__init__: category kept")
@@ -194,3 +204,6 @@ def run(ctx: Ctx) -> None:
     from .shared import lazy_slot_writers
 
     lazy_slot_writers(ctx, "R-C16-CALLBACKS")
+    from .shared import callbacks_live_iteration
+
+    callbacks_live_iteration(ctx, "R-C16-CALLBACKS")
